@@ -1,10 +1,10 @@
-(* Tie/Gentoo.v — the generated translation of pkg/ecosystem/gentoo (Gen/Code/Gentoo.v) against the
-   model (Eco/Gentoo).  Version.Compare has a loop and is outside the translated fragment: the
-   range functions are tied generically in it (a Section variable of the generated code). *)
+(* Tie/Gentoo.v — VERSION level: the generated translation of pkg/ecosystem/gentoo
+   (Gen/Code/Gentoo.v) against the model (Eco/Gentoo/Version).  Version.Compare has a loop and is outside
+   the translated fragment: only its helpers and String are tied here.  The range-level ties are in
+   Tie/GentooRange.v (which depends on this file, never the other way round). *)
 From Coq Require Import ZArith List Bool Lia.
 From Verif.Base Require Import Bytes GoNum GoOps Ord.
-From Verif.Eco Require Import RangeCore.
-From Verif.Eco.Gentoo Require Version Range.
+From Verif.Eco.Gentoo Require Version.
 From Verif.Gen.Code Require Gentoo.
 From Verif.Tie Require Import Tactics.
 Import ListNotations.
@@ -23,36 +23,3 @@ Print Assumptions tie_gentoo_compareInt.
 Theorem tie_gentoo_string : forall v, G.Version_String v = G.Version_original v.
 Proof. tie_solve. Qed.
 Print Assumptions tie_gentoo_string.
-
-Section Range.
-  (* any Compare (the Go method is outside the fragment) *)
-  Variable compare : G.Version -> G.Version -> Z.
-
-  Theorem tie_gentoo_matches : forall c v,
-    G.constraint_matches compare c v =
-    sat (rc_sem Range.cfg (G.constraint_operator c)) (cmp_of_Z (compare v (G.constraint_version c))).
-  Proof. tie_solve. Qed.
-
-  Theorem tie_gentoo_contains : forall r v,
-    G.VersionRange_Contains compare r v =
-    forallb (fun c => sat (rc_sem Range.cfg (G.constraint_operator c)) (cmp_of_Z (compare v (G.constraint_version c))))
-            (G.VersionRange_constraints r).
-  Proof.
-    intros. unfold G.VersionRange_Contains. apply forallb_ext_in. intros c _. apply tie_gentoo_matches.
-  Qed.
-
-  (* with a Compare that has the sign of the model's comparison *)
-  Hypothesis compare_model : forall a b, compare a b = Z_of_cmp (M.cmp_core (abs a) (abs b)).
-
-  Corollary tie_gentoo_contains_model : forall r v,
-    G.VersionRange_Contains compare r v =
-    forallb (fun c => sat (rc_sem Range.cfg (G.constraint_operator c)) (M.cmp_core (abs v) (abs (G.constraint_version c))))
-            (G.VersionRange_constraints r).
-  Proof.
-    intros. rewrite tie_gentoo_contains. apply forallb_ext_in. intros c _.
-    rewrite compare_model, cmp_of_Z_of_cmp. reflexivity.
-  Qed.
-End Range.
-Print Assumptions tie_gentoo_matches.
-Print Assumptions tie_gentoo_contains.
-Print Assumptions tie_gentoo_contains_model.
